@@ -21,7 +21,7 @@ class C02(Prop):
     check_module = "Moc.Check.C02Check"
     harness_bin = "core"
     harness_sub = "c02"
-    sizes = {"quick": 6000, "thorough": 120000}
+    sizes = {"quick": 6000, "thorough": 500000}
     gen_names = ("g_since_reject", "g_until_reject", "g_ids_reject", "g_kinds_reject", "g_authors_reject",
                  "g_tags_reject", "g_tag_has_value", "g_done", "event_matcher.go")
     rule = ("70% (event, filter list) pairs, 30% (filter list, event sequence) runs of the limit-counting matcher, "
